@@ -199,10 +199,19 @@ def push_fixed(comb):
     return source_variant(rel, marker)
 
 
+def require_fix_markers():
+    """The models transcribe the finalize-once / close-once code (/repo de9fd2170a9, e255bb09846).
+    Fail loudly if the checked tree lost those markers (the model would silently be the wrong one)."""
+    missing = [c for c in ("fanout", "unzip", "demux") if not push_fixed(c)]
+    if not source_variant("sinktools/src/unzip.rs", "closed_0"):
+        missing.append("sinktools unzip")
+    if missing:
+        raise RuntimeError("source no longer contains the finalize-once/close-once code for: %s "
+                           "(models in Push/Model.v, Push/SinkModel.v must be re-transcribed)" % missing)
+
+
 def c_comb(case):
     c = case["comb"]
-    if c in ("fanout", "unzip", "demux") and push_fixed(c):
-        return {"fanout": "CFanoutF", "unzip": "CUnzipF", "demux": "CDemuxF"}[c]
     if c == "map":
         return "(CMap %s)" % c_fcode(case["f"])
     if c == "filter":
@@ -359,6 +368,7 @@ def load_corpus(prop):
 
 
 def gen_push_cases(rng, tier, n, combs=None):
+    require_fix_markers()
     combs = combs or sorted(PUSH_COMBS)
     cases = load_corpus("C12")
     if tier == "thorough":
@@ -483,8 +493,6 @@ def c_scomb(case):
         return "(KFlatMap %s)" % c_gcode(case["g"])
     if c == "lazy":
         return "(KLazy %d%%nat %s)" % (case["init_pends"], g_bool(case["init_ok"]))
-    if c == "unzip" and source_variant("sinktools/src/unzip.rs", "closed_0"):
-        return "KUnzipF"
     return {"flatten": "KFlatten", "unzip": "KUnzip"}[c]
 
 
@@ -658,6 +666,7 @@ def gen_sink_base(rng, comb, ln):
 
 
 def gen_sink_cases(rng, tier, n, combs=None):
+    require_fix_markers()
     combs = combs or sorted(SINK_COMBS)
     cases = load_corpus("C14")
     if tier == "thorough":
